@@ -6,7 +6,7 @@
    reads from sequence.py (Gen/GenDedup.v). *)
 From Coq Require Import List Bool ZArith QArith Qcanon Qabs.
 From PV Require Import Base.AList Base.QUtil Base.Round Gen.GenDedup Model.EventLib Model.Seq Model.Dedup
-     Proofs.RoundProofs Proofs.DedupProofs.
+     Model.File Proofs.RoundProofs Proofs.DedupProofs Proofs.RoundVsPrint.
 Import ListNotations.
 Open Scope Z_scope.
 
@@ -113,15 +113,20 @@ Theorem C15_round_spec_err_sig : forall dig d, 0 < dig ->
 Proof. exact round_spec_err_sig. Qed.
 Print Assumptions C15_round_spec_err_sig.
 
-(* PARTIAL: idempotence of the significant-digit rounding is proved under the hypothesis that the
-   exponent found for the rounded value is not larger than the one found for the input.  Missing:
-   the case where rounding carries up to exactly a power of ten (exponent + 1); DESIGN.md C02 has
-   the paper argument that the value then lies on the coarser grid as well. *)
-Theorem C15_round_spec_idem_partial : forall dig d,
-  (dig <= 0 \/ sig_exp (round_spec dig d) <= sig_exp d) ->
-  round_spec dig (round_spec dig d) = round_spec dig d.
-Proof. exact round_spec_idem_partial. Qed.
-Print Assumptions C15_round_spec_idem_partial.
+(* the significant-digit rounding is idempotent for EVERY rational, including the case where rounding
+   carries to the next power of ten (the result then is exactly +-10^e, its exponent e+1, and 10^e lies
+   on the coarser grid too).  No value is excluded: beyond the search range of the exponent (|d| > 10^387)
+   the exponent is capped at 388 for the input and for the result alike. *)
+Theorem C15_round_spec_idem : forall dig d, round_spec dig (round_spec dig d) = round_spec dig d.
+Proof. exact round_spec_idem. Qed.
+Print Assumptions C15_round_spec_idem.
+
+(* the carry case spelled out *)
+Theorem C15_round_sig_carry : forall dig d e e' r,
+  0 < dig -> e = sig_exp d -> r = round_dec (dig - e) d -> e' = sig_exp r -> e < e' ->
+  e' = e + 1 /\ exists s : Z, (s = 1 \/ s = -1) /\ (r == inject_Z (s * 10 ^ (dig - 1)) * pow10 (- (dig - (e + 1))))%Q.
+Proof. exact round_sig_carry. Qed.
+Print Assumptions C15_round_sig_carry.
 
 (* ---- the digit tuples of the source ---------------------------------------------------------------- *)
 Theorem C15_digits_as_declared :
@@ -149,16 +154,49 @@ Theorem C15_row_columns_within_rounding : forall digs k n dg d,
 Proof. exact qc_row_nth. Qed.
 Print Assumptions C15_row_columns_within_rounding.
 
-Theorem C15_rnd_keys_idem_partial :
-  (forall k, key_stable dedup_digits_grad k -> rnd_grad_key (rnd_grad_key k) = rnd_grad_key k) /\
-  (forall k, key_stable dedup_digits_rf k -> rnd_rf_key (rnd_rf_key k) = rnd_rf_key k) /\
-  (forall k, key_stable dedup_digits_adc k -> rnd_adc_key (rnd_adc_key k) = rnd_adc_key k) /\
-  (forall k, shape_stable dedup_digits_shape k -> rnd_shape_key (rnd_shape_key k) = rnd_shape_key k).
-Proof.
-  exact (conj rnd_grad_key_idem_partial (conj rnd_rf_key_idem_partial
-        (conj rnd_adc_key_idem_partial rnd_shape_key_idem_partial))).
-Qed.
-Print Assumptions C15_rnd_keys_idem_partial.
+(* the four row roundings built from the source tuples are idempotent, unconditionally *)
+Theorem C15_rnd_keys_idem :
+  (forall k, rnd_grad_key (rnd_grad_key k) = rnd_grad_key k) /\
+  (forall k, rnd_rf_key (rnd_rf_key k) = rnd_rf_key k) /\
+  (forall k, rnd_adc_key (rnd_adc_key k) = rnd_adc_key k) /\
+  (forall k, rnd_shape_key (rnd_shape_key k) = rnd_shape_key k).
+Proof. exact (conj rnd_grad_key_idem (conj rnd_rf_key_idem (conj rnd_adc_key_idem rnd_shape_key_idem))). Qed.
+Print Assumptions C15_rnd_keys_idem.
+
+(* hence EventLibrary.remove_duplicates with the digits of the source: the second pass is the identity
+   (same library, identity mapping) for every library with unique ids *)
+Theorem C15_dedup_idempotent_source : forall l : klib, NoDup (akeys (ldata l)) ->
+  second_pass_identity rnd_shape_key l /\ second_pass_identity rnd_grad_key l /\
+  second_pass_identity rnd_rf_key l /\ second_pass_identity rnd_adc_key l.
+Proof. exact source_dedup_idempotent. Qed.
+Print Assumptions C15_dedup_idempotent_source.
+
+(* ---- duplicate removal vs. the printer (the link left open by C02) --------------------------------- *)
+(* sig_range dig x : x == 0, or 10^(dig-12) <= |x| and |x| + 1e-12 <= 10^387.  On that range the rounding of
+   duplicate removal (round_spec, with the code's 1e-12 offset) and the value printed by '{:g}' / '{:.9g}'
+   (fmt_sig of Model/File.v) are the same function ... *)
+Theorem C15_round_spec_eq_fmt_sig : forall dig x,
+  1 <= dig -> sig_range dig x -> round_spec dig x = fmt_sig dig x.
+Proof. exact round_spec_eq_fmt_sig. Qed.
+Print Assumptions C15_round_spec_eq_fmt_sig.
+
+(* ... so two values are identified by duplicate removal exactly when they print identically
+   (6 significant digits: |x| >= 1e-6; 9 significant digits: |x| >= 1e-3; or 0) *)
+Theorem C15_dedup_classes_refine_print_classes_sig : forall dig x y,
+  1 <= dig -> sig_range dig x -> sig_range dig y ->
+  (round_spec dig x = round_spec dig y <-> fmt_sig dig x = fmt_sig dig y).
+Proof. exact dedup_classes_refine_print_classes_sig. Qed.
+Print Assumptions C15_dedup_classes_refine_print_classes_sig.
+
+(* below that range the implication is FALSE (the offset makes duplicate removal coarser than the printer):
+   1e-7 - 4e-13 and 1e-7 (6 digits), 1e-4 - 4e-13 and 1e-4 (9 digits), 1e-20 and 2e-20 *)
+Theorem C15_dedup_classes_refine_print_classes_sig_refuted :
+  (exists x y, (Qabs x < pow10 (6 - 12))%Q /\ round_spec 6 x = round_spec 6 y /\ fmt_sig 6 x <> fmt_sig 6 y) /\
+  (exists x y, (Qabs x < pow10 (9 - 12))%Q /\ round_spec 9 x = round_spec 9 y /\ fmt_sig 9 x <> fmt_sig 9 y) /\
+  (exists x y, round_spec 6 x = round_spec 6 y /\ fmt_sig 6 x <> fmt_sig 6 y /\
+               (Qabs x < log_offset)%Q /\ (Qabs y < log_offset)%Q).
+Proof. exact dedup_classes_refine_print_classes_sig_refuted. Qed.
+Print Assumptions C15_dedup_classes_refine_print_classes_sig_refuted.
 
 (* ---- (d) the whole sequence: Sequence.remove_duplicates = dedup_core ---------------------------------- *)
 (* StoreWf c   : ids of the shape/gradient/RF/ADC libraries are unique positive keys, no empty type tag stored.
@@ -230,6 +268,29 @@ Theorem C15_rf_use_merge_refuted :
     rf_use_of (decode c i) = Some (Some 114) /\ rf_use_of (decode c' i) = Some (Some 101).
 Proof. exact rf_use_merge_refuted. Qed.
 Print Assumptions C15_rf_use_merge_refuted.
+
+(* no block fails to decode: with valid references, the mandatory shapes present (ShapesPresent: waveform of
+   every arbitrary gradient, magnitude and phase of every RF row) and a duration and walkable extension chain
+   for every block (BlocksComplete; neither is touched by remove_duplicates), decode never returns None ... *)
+Theorem C15_refs_decode : forall c i,
+  RefsExist c -> ShapesPresent c -> BlocksComplete c -> In i (akeys (blocks c)) -> decode c i <> None.
+Proof. exact refs_decode. Qed.
+Print Assumptions C15_refs_decode.
+
+(* ... so every block decodes before AND after duplicate removal, and to the rounded block *)
+Theorem C15_seq_dedup_every_block_decodes : forall c,
+  StoreWf c -> RefsExist c -> ShapesPresent c -> BlocksComplete c ->
+  TagsAgree rnd_shape_key rnd_grad_key rnd_rf_key c ->
+  exists c', seq_dedup c = Some c' /\
+    forall i, In i (akeys (blocks c')) ->
+      exists b, decode c i = Some b /\
+                decode c' i = Some (round_dblock rnd_shape_key rnd_grad_key rnd_rf_key rnd_adc_key c b).
+Proof. exact seq_dedup_every_block_decodes. Qed.
+Print Assumptions C15_seq_dedup_every_block_decodes.
+
+Theorem C15_example_complete : ShapesPresent ex_c /\ BlocksComplete ex_c.
+Proof. exact (conj ex_shapes ex_complete). Qed.
+Print Assumptions C15_example_complete.
 
 (* ---- (e) copy vs in place ---------------------------------------------------------------------------- *)
 Theorem C15_dedup_copy_leaves_original : forall cache_on abs_fix r1 r2 r3 r4 s,
